@@ -240,7 +240,69 @@ func rulesC12(c *Ctx) {
 			}
 		}
 		c.Need(wrap >= 0, "ServeHTTP: req.Body = http.MaxBytesReader(...)")
-		seen := g.ReachUnder(anyOf(nilTestOf("Body", triFalse), cmpIs("MaxRequestBodyBytes", token.GTR, triTrue))(sh), func(v int) bool { return v == wrap })
+		// the scenario by evaluation: a positive limit and a request that has a body whose length is not declared up front
+		// (chunked transfer, HTTP/2 without content-length: ContentLength is -1, Body is neither nil nor http.NoBody) — the
+		// requests for which the reader is the only bound there is
+		bodyLeaf0 := anyOf(nilTestOf("Body", triFalse), cmpIs("MaxRequestBodyBytes", token.GTR, triTrue))(sh)
+		bodyLeaf := func(e ast.Expr) tri {
+			if t := bodyLeaf0(e); t != triUnknown {
+				return t
+			}
+			x, y, op, ok := binaryCmp(e)
+			if !ok {
+				return triUnknown
+			}
+			cmp := func(l, r int64) tri {
+				var res bool
+				switch op {
+				case token.EQL:
+					res = l == r
+				case token.NEQ:
+					res = l != r
+				case token.LSS:
+					res = l < r
+				case token.LEQ:
+					res = l <= r
+				case token.GTR:
+					res = l > r
+				case token.GEQ:
+					res = l >= r
+				default:
+					return triUnknown
+				}
+				if res {
+					return triTrue
+				}
+				return triFalse
+			}
+			role := func(e ast.Expr) string { return exprStr(sh.valueOf(e)) }
+			if o := sh.ObjOf(y); o != nil && o.Pkg() != nil && o.Pkg().Path() == "net/http" && o.Name() == "NoBody" && strings.HasSuffix(role(x), ".Body") {
+				return cmp(1, 0) // the body is not the no-body sentinel
+			}
+			if o := sh.ObjOf(x); o != nil && o.Pkg() != nil && o.Pkg().Path() == "net/http" && o.Name() == "NoBody" && strings.HasSuffix(role(y), ".Body") {
+				return cmp(0, 1)
+			}
+			val := func(e ast.Expr) (int64, bool) {
+				if z, isZ := sh.ConstInt(e); isZ {
+					return z, true
+				}
+				r := role(e)
+				switch {
+				case strings.HasSuffix(r, ".MaxRequestBodyBytes"):
+					return 4 << 20, true
+				case strings.HasSuffix(r, ".ContentLength"):
+					return -1, true
+				}
+				return 0, false
+			}
+			l, okL := val(x)
+			r, okR := val(y)
+			if okL && okR {
+				return cmp(l, r)
+			}
+			return triUnknown
+		}
+		seen := g.ReachUnder(bodyLeaf, func(v int) bool { return v == wrap })
 		okWrap := true
 		for _, d := range dispatch {
 			if seen[d] {
@@ -540,8 +602,79 @@ func rulesC12(c *Ctx) {
 		}
 		c.Need(len(st) == 1, "SSEHandler: session.ServeHTTP")
 		addrSSE, _ := typeAssertVars(sse, "net", "Addr")
-		c.gateScenario(sse, "sse:loopback-listener-foreign-Host", anyOf(loopOf(sse, triFalse)...)(sse), st, []int64{403}, "loopback-bound listener, non-loopback Host")
-		c.gateScenario(sse, "sse:wrong-content-type", anyOf(debugFlagOff(), cmpPath("Request.Method", token.EQL, triTrue), callArgMentions("IsLoopback", addrSSE, triFalse), cmpObj(sse.VarFromCallNamed("ParseMediaType", 0), token.NEQ, triTrue), cmpIs("baseMediaType", token.NEQ, triTrue))(sse), st, []int64{415}, "POST Content-Type is not application/json")
+		// the loopback gate handed to a function of the package (shared with the other handler): the function is given the
+		// writer and the request, holds the net.Addr assertion, and its boolean result decides whether the handler goes on.
+		// Decided in two halves: under the scenario the function answers 403 and every return it reaches reports true; in
+		// the handler, with that call true, the hand-off to the session is unreachable.
+		var gateFn *Func
+		var gateCall *ast.CallExpr
+		if addrSSE == nil {
+			for _, call := range sse.AllCalls(sse.Body, false) {
+				fn := sse.Callee(call)
+				if fn == nil {
+					continue
+				}
+				h := c.P.FuncOf(fn)
+				if h == nil || h.Body == nil {
+					continue
+				}
+				if a, _ := typeAssertVars(h, "net", "Addr"); a != nil {
+					gateFn, gateCall = h, call
+				}
+			}
+		}
+		passGate := leafMatcher(func(f *Func, e ast.Expr) (tri, bool) { return 0, false })
+		if gateFn != nil {
+			key, why := "sse:loopback-listener-foreign-Host", "loopback-bound listener, non-loopback Host"
+			ms := loopOf(gateFn, triFalse)
+			for i, p := range gateFn.NonRecvParams() {
+				if i < len(gateCall.Args) {
+					if sel, ok := ast.Unparen(gateCall.Args[i]).(*ast.SelectorExpr); ok && sel.Sel.Name == "DisableLocalhostProtection" {
+						ms = append(ms, objIs(p, triFalse))
+					}
+				}
+			}
+			leafH := anyOf(ms...)(gateFn)
+			hg := gateFn.Graph()
+			seenH := hg.ReachUnder(leafH, nil)
+			// whichever way round the result is read ("rejected" or "may proceed"): under the scenario every return that
+			// can be reached reports one and the same constant
+			okH, have, refused := true, false, false
+			for _, x := range hg.Exits {
+				if !seenH[x] {
+					continue
+				}
+				r, isR := hg.Node(x).(*ast.ReturnStmt)
+				same := false
+				if isR && len(r.Results) == 1 {
+					if b, isC := gateFn.ConstBool(r.Results[0]); isC && (!have || b == refused) {
+						same, have, refused = true, true, b
+					}
+				}
+				if !same {
+					okH = false
+					c.Fail(key, gateFn, hg.Node(x), "%s: %s, to which the handler hands the gate, does not report one definite answer under this scenario (this return differs from the refusal)", why, gateFn.Name())
+					break
+				}
+			}
+			if okH && !have {
+				okH = false
+				c.Fail(key, gateFn, nil, "%s: no return of %s is reachable under this scenario", why, gateFn.Name())
+			}
+			says, goesOn := triTrue, triFalse
+			if !refused {
+				says, goesOn = triFalse, triTrue
+			}
+			if okH {
+				c.gateScenario(gateFn, key, leafH, nil, []int64{403}, why)
+				seenS := sg.ReachUnder(anyOf(callIs(gateFn.Obj.Name(), "", says), fieldIs("DisableLocalhostProtection", triFalse))(sse), nil)
+				c.Check(!seenS[st[0]], key+":handler-stops", sse, gateCall, "%s: when %s reports the refusal (%v) the handler does not go on to the session", why, gateFn.Name(), refused)
+			}
+			passGate = callIs(gateFn.Obj.Name(), "", goesOn)
+		} else {
+			c.gateScenario(sse, "sse:loopback-listener-foreign-Host", anyOf(loopOf(sse, triFalse)...)(sse), st, []int64{403}, "loopback-bound listener, non-loopback Host")
+		}
+		c.gateScenario(sse, "sse:wrong-content-type", anyOf(passGate, debugFlagOff(), cmpPath("Request.Method", token.EQL, triTrue), callArgMentions("IsLoopback", addrSSE, triFalse), cmpObj(sse.VarFromCallNamed("ParseMediaType", 0), token.NEQ, triTrue), cmpIs("baseMediaType", token.NEQ, triTrue))(sse), st, []int64{415}, "POST Content-Type is not application/json")
 	})
 
 	c.Rule("R-C12-2", "the server validates exactly the mirror headers the client sets (Mcp-Method, Mcp-Name for the same methods, Mcp-Param-* from the same annotations)", func() {
@@ -1470,6 +1603,17 @@ func ruleNoSilent200(c *Ctx, id string, rels []string, keep func(f *Func) bool, 
 								proceed = true
 							}
 						}
+						// the opposite convention ("reports whether the request was rejected"): the function has one boolean result,
+						// every return of true lies behind a use of the writer and some return of false does not, so it is false that
+						// leaves the response to the caller — and true must lie behind the answer
+						if c12HandledIsTrue(f, g, touches) {
+							proceed = false
+							if len(r.Results) == 1 {
+								if cv := f.ConstVal(r.Results[0]); cv != nil && cv.Kind() == constant.Bool && !constant.BoolVal(cv) {
+									proceed = true
+								}
+							}
+						}
 						if proceed {
 							continue
 						}
@@ -1580,4 +1724,46 @@ func ruleHeadersBeforeStatus(c *Ctx, id string, rels []string, minSets int) {
 		}
 		c.Pin("Header().Set sites", nSets, minSets)
 	})
+}
+
+// c12HandledIsTrue: f returns exactly one boolean, every return is a constant, there are returns of both values, and every
+// `return true` is reached only after the response writer was used while some `return false` is not: the result says
+// "the response was written" (true) / "go on" (false).
+func c12HandledIsTrue(f *Func, g *Graph, touches func(int) bool) bool {
+	var res *ast.FieldList
+	if f.Decl != nil {
+		res = f.Decl.Type.Results
+	} else if f.Lit != nil {
+		res = f.Lit.Type.Results
+	}
+	if res == nil || len(res.List) != 1 || len(res.List[0].Names) > 1 {
+		return false
+	}
+	if b, ok := f.TypeOf(res.List[0].Type).Underlying().(*types.Basic); !ok || b.Kind() != types.Bool {
+		return false
+	}
+	nT, nF, untouchedF := 0, 0, 0
+	for _, e := range g.Exits {
+		r, isR := g.Node(e).(*ast.ReturnStmt)
+		if !isR || len(r.Results) != 1 {
+			return false
+		}
+		cv := f.ConstVal(r.Results[0])
+		if cv == nil || cv.Kind() != constant.Bool {
+			return false
+		}
+		ok, _ := g.DominatedBy(e, touches)
+		if constant.BoolVal(cv) {
+			nT++
+			if !ok {
+				return false
+			}
+		} else {
+			nF++
+			if !ok {
+				untouchedF++
+			}
+		}
+	}
+	return nT > 0 && nF > 0 && untouchedF > 0
 }
